@@ -103,6 +103,8 @@ def dict_op(b0: bool, b1: bool, b2: bool, v0: int, v1: int, v2: int, ki: int, v:
 # key round trip: written through one path, observed through the others
 WRITE = ["d[k] = v", "d = {k: v}", "d[k] = zero\nd[k] += v", "d = {k: zero}\nd[k] += v", "d = {'x': zero, k: v}"]
 READ = ["d[k]", "get(d, k)", "__getitem__(d, k)", "get(d, k, zero - one)"]
+if isinstance(hlib.PARAM, dict) and "text" in hlib.PARAM:
+    prewarm(hlib.PARAM["text"])
 if isinstance(hlib.PARAM, dict) and "w" in hlib.PARAM:
     prewarm(*[WRITE[hlib.PARAM["w"]] + "\n" + r for r in READ])
     prewarm(WRITE[hlib.PARAM["w"]] + "\ndel d[k]\nlen(d)", WRITE[hlib.PARAM["w"]] + "\nkeys(d)")
@@ -126,4 +128,42 @@ def key_roundtrip(ki: int, kint: int, use_int: bool, v: int) -> None:
     else:
         out = run_eval(WRITE[w] + "\ndel d[k]\nlen(d)", names, 1000)
         assert out[0] == 'ok' and out[1] == (1 if w == 4 and M.key(k) != 'x' else 0), "del d[k] did not remove the entry written as d[k]"
+    hlib.done()
+
+
+def two_keys(ki: int, kj: int, v1: int, v2: int) -> None:
+    """
+    pre: 0 <= ki < 15 and 0 <= kj < 15
+    post: True
+    """
+    # short sequences with two (possibly equal-looking) keys on one dict: 1 / Decimal('1') / Decimal('1.0') / True are
+    # equal as Python values but are distinct keys unless their string forms coincide
+    hlib.enter(locals())
+    hlib.reset_caches()
+    k1, k2 = KEYS[hlib.concrete(ki, 0, 14)], KEYS[hlib.concrete(kj, 0, 14)]
+    text = hlib.PARAM["text"]
+    d = {}
+    names = {'d': d, 'k1': k1, 'k2': k2, 'v1': v1, 'v2': v2}
+    out = run_eval(text, names, 1000)
+    # the model, line by line
+    m = {}
+    exp = ('ok', None)
+    for line in text.split("\n"):
+        if line == "d[k1] = v1":
+            m = M.d_write(m, k1, v1)[1]
+        elif line == "d[k2] = v2":
+            m = M.d_write(m, k2, v2)[1]
+        elif line == "del d[k2]":
+            m = M.d_del(m, k2)[1]
+        elif line == "d[k2]":
+            exp = M.d_read(m, k2)[0]
+        elif line == "get(d, k2)":
+            exp = M.d_get(m, k2)[0]
+        elif line == "len(d)":
+            exp = ('ok', len(m))
+    assert d == m or exp[0] != 'ok', "two-key sequence: dict contents differ from the model (keys are normalised by their string form only)"
+    if exp[0] == 'ok':
+        assert out[0] == 'ok' and out[1] == exp[1], "two-key sequence: result differs from the model"
+    else:
+        assert out[0] == 'err' and issubclass(out[1], ParserError), "two-key sequence: reading a key that was never written must fail"
     hlib.done()
